@@ -6,9 +6,20 @@ rewriting, one-shot functions, incremental state machines over an abstract inner
 The inner codec is Python's; the model assumes of it exactly `DecLaw` (feeding a then b = feeding
 a ++ b; failures are not forgotten) for its incremental decoders and `EncLaw` (the same two laws)
 for its incremental encoders; the inverse additionally assumes that the inner codec round-trips.
+
+The inverse WITHOUT an encoding argument on the decoder side (`encode t none` then `decode b none`)
+assumes, for the one encoding name `e` that the text selects, `AsciiTransparent I e`
+(`Proofs/CodecInverse.lean`): the name is registered, the one-shot inner codec round-trips
+(`encodeAll e t = some b → decodeAll e b = some t`), and an ASCII prefix of the text comes out as the
+same bytes (`encodeAll e (p ++ r) = some b`, `p` ASCII → `b = p ++ _`).  Nothing is assumed about the
+bytes after the ASCII prefix.  For the `utf-8-sig` spellings (not ASCII-transparent: a byte-order
+mark comes first) the assumption is `SigCodec I e`: the bytes start with `EF BB BF` and the decoder
+registered as `utf-8-sig` reads them back.  Texts whose UTF-8 bytes look like a byte-order mark or a
+UTF-16/32 `@` (`U+FEFF…`, `"@\0c\0"`, `"\0@"`, …) do NOT survive: see the counterexamples at the end.
 -/
 import CssVerif.Proofs.Codec
 import CssVerif.Proofs.CodecEnc
+import CssVerif.Proofs.CodecInverse
 namespace CssVerif.C14
 open CssVerif CssVerif.Codec
 
@@ -199,5 +210,154 @@ example : ((encFeed idInner (encInit idInner (some (ofStr "UTF_8_sig")))
 example : ((encFeed idInner (encInit idInner none) [ofStr "@char", ofStr "set \"utf-8-sig", ofStr "\";a"]).map (·.1)).toOption
     = some (ofStr "@charset \"utf-8\";a") := by decide
 example : detectUnicode (ofStr "@charset \"x\"") false = (some (ofStr "x"), true) := by decide
+
+/-! ### the inverse when the DECODER gets no encoding argument -/
+
+/-- **inverse, text with an `@charset` head**: the text starts with a complete `@charset "e"` rule,
+`encode` (no encoding argument) therefore encodes it with `e`; if the inner codec for `e` is
+ASCII-transparent, `decode` (no encoding argument, any `force`) finds the same head in the bytes,
+decodes with `e`, rewrites the head to `e` — the identity — and returns the text itself.
+
+Hypotheses: the name has no quote (else the head ends earlier; automatically true when the head was
+found by `detectUnicode`, see `encode_decode_charset_detected`), is ASCII (that is what makes it
+appear verbatim in the bytes; Python codec names are ASCII), and is not a spelling of `utf-8-sig`
+(false then: see `encode_decode_charset_sig` and the counterexamples below).  That `e` is not the
+css codec's own name follows from `encode` having succeeded. -/
+theorem encode_decode_charset (I : Inner) (e rest : Text) (b : Bytes) (tr : AsciiTransparent I e)
+    (hq : ∀ c ∈ e, c ≠ 34) (ha : ∀ c ∈ e, c < 128) (hs : isUtf8Sig e = false)
+    (h : encode I (charsetPrefix ++ e ++ 34 :: rest) none = .ok b) (force : Bool) :
+    decode I b none force = .ok (charsetPrefix ++ e ++ 34 :: rest) :=
+  encode_decode_head I e rest b tr hq ha hs h force
+
+/-- the same, the head being described by what the text-level detector says about the text -/
+theorem encode_decode_charset_detected (I : Inner) (t e : Text) (b : Bytes)
+    (hdet : detectUnicode t true = (some e, true)) (tr : AsciiTransparent I e)
+    (ha : ∀ c ∈ e, c < 128) (hs : isUtf8Sig e = false)
+    (h : encode I t none = .ok b) (force : Bool) :
+    decode I b none force = .ok t := by
+  obtain ⟨rest, ht, hq⟩ := detectU_explicit hdet
+  subst ht
+  exact encode_decode_head I e rest b tr hq ha hs h force
+
+/-- **`utf-8-sig` heads**: the encoder writes `utf-8` into the head and a byte-order mark in front;
+the decoder answers `utf-8-sig` because of the mark and writes `utf-8` again.  The text comes back
+with its head renamed to `utf-8` — the inverse holds up to the rewrite, not exactly. -/
+theorem encode_decode_charset_sig (I : Inner) (e rest : Text) (b : Bytes) (sc : SigCodec I e)
+    (hq : ∀ c ∈ e, c ≠ 34) (hs : isUtf8Sig e = true)
+    (h : encode I (charsetPrefix ++ e ++ 34 :: rest) none = .ok b) (force : Bool) :
+    decode I b none force = .ok (charsetPrefix ++ utf8 ++ 34 :: rest) :=
+  encode_decode_head_sig I e rest b sc hq hs h force
+
+/-- the answer of the byte detector decides everything when no encoding is given -/
+theorem decode_none_detected (I : Inner) (b : Bytes) (e : Text) (force : Bool)
+    (hd : (detectStr b true).1 = some e) :
+    decode I b none force = if isCss e then .error .value else decodeWith I e b :=
+  decode_none_other I b e force hd
+
+/-- **inverse, text without a complete head** (no head at all, or an unterminated one): `encode`
+uses UTF-8; if the byte detector answers UTF-8 for the bytes, `decode` returns the text.  By
+`decode_none_detected` the hypothesis on the bytes is also necessary for the UTF-8 decoder to be
+called at all. -/
+theorem encode_decode_default_detect (I : Inner) (t : Text) (b : Bytes) (tr : AsciiTransparent I utf8)
+    (hn : (detectUnicode t true).2 = false) (h : encode I t none = .ok b)
+    (hd : (detectStr b true).1 = some utf8) (force : Bool) :
+    decode I b none force = .ok t :=
+  encode_decode_nohead I t b tr hn h hd force
+
+/-- … in particular when the bytes fit no byte-order mark, no UTF-16/32 `@` and no `@cha` -/
+theorem encode_decode_default (I : Inner) (t : Text) (b : Bytes) (tr : AsciiTransparent I utf8)
+    (hn : (detectUnicode t true).2 = false) (h : encode I t none = .ok b)
+    (hc : cands b = []) (force : Bool) :
+    decode I b none force = .ok t :=
+  encode_decode_nohead I t b tr hn h (by rw [detect_cands_nil true hc]) force
+
+/-- … which can be read off the text: some ASCII prefix `p` of it already excludes every candidate
+(`cands p = []` is decidable: `"a"`, `"@i"`, `"@m"`, `"@co"`, `"/*"` …) -/
+theorem encode_decode_default_prefix (I : Inner) (p r : Text) (b : Bytes) (tr : AsciiTransparent I utf8)
+    (hn : (detectUnicode (p ++ r) true).2 = false) (h : encode I (p ++ r) none = .ok b)
+    (hp : ∀ c ∈ p, c < 128) (hc : cands p = []) (force : Bool) :
+    decode I b none force = .ok (p ++ r) :=
+  encode_decode_prefix I p r b tr hn h hp hc force
+
+/-- … for instance: the first character is ASCII, not NUL and not `@` (no hypothesis on the bytes,
+none on the rest of the text) -/
+theorem encode_decode_default_first (I : Inner) (c : Nat) (r : Text) (b : Bytes) (tr : AsciiTransparent I utf8)
+    (h128 : c < 128) (h0 : c ≠ 0) (h64 : c ≠ 64) (h : encode I (c :: r) none = .ok b) (force : Bool) :
+    decode I b none force = .ok (c :: r) :=
+  encode_decode_prefix I [c] r b tr (detectU_first c r h64) h
+    (by intro x hx; rw [List.mem_singleton.mp hx]; exact h128) (cands_first c h128 h0 h64) force
+
+/-! non-vacuity: the identity codec and the toy UTF-8 codec (`toyInner`: ASCII and U+FEFF, BOM for
+the `utf-8-sig` spellings, no other name known) are ASCII-transparent; concrete texts go through -/
+example (e : Text) : AsciiTransparent idInner e := idInner_transparent e
+example : AsciiTransparent toyInner (ofStr "UTF_8") := toyInner_transparent _ (by decide)
+example : SigCodec toyInner (ofStr "UTF_8_sig") := toyInner_sig _ (by decide)
+
+example : (encode idInner (ofStr "@charset \"Latin-1\";a") none).toOption = some (ofStr "@charset \"Latin-1\";a") := by decide
+example : decode idInner (ofStr "@charset \"Latin-1\";a") none true = .ok (ofStr "@charset \"Latin-1\";a") :=
+  encode_decode_charset idInner (ofStr "Latin-1") (ofStr ";a") _ (idInner_transparent _)
+    (by decide) (by decide) (by decide) (by rfl) true
+/-- a head immediately followed by the end of the text; an upper-case, underscore spelling is kept -/
+example : decode toyInner (ofStr "@charset \"UTF_8\"") none true = .ok (ofStr "@charset \"UTF_8\"") :=
+  encode_decode_charset_detected toyInner (ofStr "@charset \"UTF_8\"") (ofStr "UTF_8") _ (by decide)
+    (toyInner_transparent _ (by decide)) (by decide) (by decide) (by rfl) true
+example : (encode toyInner (ofStr "@charset \"UTF_8\"") none).toOption = some (ofStr "@charset \"UTF_8\"") := by decide
+/-- the empty name is a name, too (the identity codec knows it) -/
+example : decode idInner (ofStr "@charset \"\";") none true = .ok (ofStr "@charset \"\";") :=
+  encode_decode_charset idInner [] (ofStr ";") _ (idInner_transparent _) (by decide) (by decide) (by decide) (by rfl) true
+/-- `utf-8-sig`: BOM in the bytes, `utf-8` in the head that comes back -/
+example : (encode toyInner (ofStr "@charset \"UTF_8_sig\";a") none).toOption
+    = some (0xEF :: 0xBB :: 0xBF :: ofStr "@charset \"utf-8\";a") := by decide
+example : decode toyInner (0xEF :: 0xBB :: 0xBF :: ofStr "@charset \"utf-8\";a") none true
+    = .ok (ofStr "@charset \"utf-8\";a") :=
+  encode_decode_charset_sig toyInner (ofStr "UTF_8_sig") (ofStr ";a") _ (toyInner_sig _ (by decide))
+    (by decide) (by decide) (by rfl) true
+/-- no head -/
+example : decode toyInner (ofStr "a{}") none true = .ok (ofStr "a{}") :=
+  encode_decode_default_first toyInner 97 (ofStr "{}") _ (toyInner_transparent _ (by decide))
+    (by decide) (by decide) (by decide) (by rfl) true
+example : decode toyInner (ofStr "@import \"x\";") none true = .ok (ofStr "@import \"x\";") :=
+  encode_decode_default_prefix toyInner (ofStr "@i") (ofStr "mport \"x\";") _ (toyInner_transparent _ (by decide))
+    (by decide) (by rfl) (by decide) (by decide) true
+/-- an unterminated head is UTF-8 text like any other -/
+example : decode toyInner (ofStr "@charset \"abc") none true = .ok (ofStr "@charset \"abc") :=
+  encode_decode_default_detect toyInner (ofStr "@charset \"abc") _ (toyInner_transparent _ (by decide))
+    (by decide) (by rfl) (by decide) true
+
+/-! counterexamples (kernel-checked): where encode → decode does NOT return the text -/
+
+/-- **a leading U+FEFF is lost.**  The text has no head, the toy UTF-8 codec is ASCII-transparent and
+round-trips on these very bytes, but the three bytes of U+FEFF are the UTF-8 byte-order mark: the
+detector answers `utf-8-sig`, whose decoder drops them.  So the hypothesis on the bytes in
+`encode_decode_default_detect` cannot be dropped. -/
+example :
+    (detectUnicode (0xFEFF :: ofStr "a{}") true).2 = false ∧
+    (encode toyInner (0xFEFF :: ofStr "a{}") none).toOption = some (0xEF :: 0xBB :: 0xBF :: ofStr "a{}") ∧
+    toyInner.decodeAll utf8 (0xEF :: 0xBB :: 0xBF :: ofStr "a{}") = some (0xFEFF :: ofStr "a{}") ∧
+    detectStr (0xEF :: 0xBB :: 0xBF :: ofStr "a{}") true = (some (ofStr "utf-8-sig"), true) ∧
+    (decode toyInner (0xEF :: 0xBB :: 0xBF :: ofStr "a{}") none true).toOption = some (ofStr "a{}") := by decide
+
+/-- **texts with NUL characters that look like a UTF-16/32 `@`**: `"@\0c\0"` is encoded as the same
+four UTF-8 bytes, which the detector takes for UTF-16-LE (`"\0@"`: UTF-16-BE, `"@\0\0\0"`:
+UTF-32-LE, `"\0\0\0@"`: UTF-32-BE); the toy codec does not know these names, so decoding fails with
+a lookup error (Python would decode `"@\0c\0"` to `"@c"`) -/
+example :
+    (encode toyInner [64, 0, 99, 0] none).toOption = some [64, 0, 99, 0] ∧
+    detectStr [64, 0, 99, 0] true = (some (ofStr "utf-16-le"), false) ∧
+    decode toyInner [64, 0, 99, 0] none true = .error .lookup ∧
+    detectStr [0, 64] true = (some (ofStr "utf-16-be"), false) ∧
+    detectStr [64, 0, 0, 0] true = (some (ofStr "utf-32-le"), false) ∧
+    detectStr [0, 0, 0, 64] true = (some (ofStr "utf-32-be"), false) :=
+  ⟨by decide, by decide, by rfl, by decide, by decide, by decide⟩
+
+/-- **`utf-8-sig` heads do not come back as they were** — even with the identity codec, which is
+ASCII-transparent for every name: `encode` itself renames the head to `utf-8`.  So `hs` in
+`encode_decode_charset` cannot be dropped. -/
+example :
+    (encode idInner (ofStr "@charset \"utf-8-sig\";a") none).toOption = some (ofStr "@charset \"utf-8\";a") ∧
+    (decode idInner (ofStr "@charset \"utf-8\";a") none true).toOption = some (ofStr "@charset \"utf-8\";a") := by decide
+
+/-- the css codec's own name in the head: `encode` refuses, in any letter case -/
+example : encode idInner (ofStr "@charset \"CSS\";a") none = .error .value := by rfl
 
 end CssVerif.C14
